@@ -35,6 +35,11 @@ type Solver struct {
 	decls   map[string]bool
 	scoped  []map[string]bool
 	LastErr string
+	declLines []string
+	frames    [][]string
+	FallbackMS int
+	Fallbacks  int
+	lastModel  map[string]string
 }
 
 // SolverCommand returns argv for a named back end.
@@ -98,6 +103,8 @@ func (s *Solver) Reset() {
 	s.script = s.script[:0]
 	s.decls = map[string]bool{}
 	s.scoped = nil
+	s.declLines = nil
+	s.frames = [][]string{nil}
 }
 
 func (s *Solver) record(line string) {
@@ -113,6 +120,7 @@ func (s *Solver) Declare(name string, sort Sort) {
 	}
 	s.decls[name] = true
 	l := fmt.Sprintf("(declare-const %s %s)", name, sort)
+	s.declLines = append(s.declLines, l)
 	s.record(l)
 	s.send(l)
 }
@@ -127,18 +135,42 @@ func (s *Solver) DeclareFun(name string, args []Sort, res Sort) {
 		as[i] = a.String()
 	}
 	l := fmt.Sprintf("(declare-fun %s (%s) %s)", name, strings.Join(as, " "), res)
+	s.declLines = append(s.declLines, l)
 	s.record(l)
 	s.send(l)
 }
 
 func (s *Solver) Assert(term string) {
 	l := "(assert " + term + ")"
+	s.frames[len(s.frames)-1] = append(s.frames[len(s.frames)-1], l)
 	s.record(l)
 	s.send(l)
 }
 
-func (s *Solver) Push() { s.record("(push 1)"); s.send("(push 1)") }
-func (s *Solver) Pop()  { s.record("(pop 1)"); s.send("(pop 1)") }
+func (s *Solver) Push() { s.frames = append(s.frames, nil); s.record("(push 1)"); s.send("(push 1)") }
+func (s *Solver) Pop() {
+	if len(s.frames) > 1 {
+		s.frames = s.frames[:len(s.frames)-1]
+	}
+	s.record("(pop 1)")
+	s.send("(pop 1)")
+}
+
+// FlatScript is the current assertion stack as a non-incremental script.
+func (s *Solver) FlatScript() string {
+	var b strings.Builder
+	for _, d := range s.declLines {
+		b.WriteString(d)
+		b.WriteByte('\n')
+	}
+	for _, f := range s.frames {
+		for _, a := range f {
+			b.WriteString(a)
+			b.WriteByte('\n')
+		}
+	}
+	return b.String()
+}
 
 // readLine reads one non-empty response line.
 func (s *Solver) readLine() string {
@@ -203,6 +235,47 @@ func (s *Solver) readSexp() string {
 // Check runs (check-sat) and returns "sat", "unsat" or "unknown". Any error
 // line from the solver is reported as "unknown" (inconclusive), never as a verdict.
 func (s *Solver) Check() string {
+	s.lastModel = nil
+	r := s.checkIncremental()
+	if r != "unknown" || s.FallbackMS <= 0 {
+		return r
+	}
+	// The incremental engine gave up: decide the same assertion stack with
+	// fresh non-incremental processes (different tactics, other solvers).
+	flat := s.FlatScript()
+	for _, be := range []string{"z3", "z3-new", "cvc5"} {
+		t0 := time.Now()
+		v := oneShotVerdict(be, flat, s.FallbackMS)
+		s.Stats.Time += time.Since(t0)
+		if v == "sat" || v == "unsat" {
+			s.Fallbacks++
+			s.Stats.Unknown--
+			if v == "sat" {
+				s.Stats.Sat++
+				s.lastModel = map[string]string{"@backend": be}
+			} else {
+				s.Stats.Unsat++
+			}
+			return v
+		}
+	}
+	return "unknown"
+}
+
+func oneShotVerdict(backend, flat string, timeoutMS int) string {
+	res, err := OneShot(backend, flat+"(check-sat)\n", timeoutMS)
+	if err != nil || len(res) == 0 {
+		return "unknown"
+	}
+	for _, r := range res {
+		if strings.HasPrefix(r, "(error") {
+			return "unknown"
+		}
+	}
+	return res[len(res)-1]
+}
+
+func (s *Solver) checkIncremental() string {
 	if s.dead {
 		return "unknown"
 	}
@@ -264,6 +337,41 @@ func (s *Solver) CheckWith(extra string) string {
 func (s *Solver) GetValues(names []string) map[string]string {
 	res := map[string]string{}
 	if s.dead || len(names) == 0 {
+		return res
+	}
+	if s.lastModel != nil {
+		be := s.lastModel["@backend"]
+		script := "(set-option :produce-models true)\n" + s.FlatScript() + "(check-sat)\n"
+		for _, n := range names {
+			script += "(get-value (" + n + "))\n"
+		}
+		argv := SolverCommand(be, s.FallbackMS)
+		cmd := exec.Command(argv[0], argv[1:]...)
+		pre := ""
+		if be == "cvc5" {
+			pre = "(set-logic ALL)\n"
+		}
+		cmd.Stdin = strings.NewReader(pre + script + "(exit)\n")
+		out, _ := cmd.Output()
+		txt := string(out)
+		for _, n := range names {
+			key := "((" + n + " "
+			if i := strings.Index(txt, key); i >= 0 {
+				rest := txt[i+len(key):]
+				depth := 0
+				for j := 0; j < len(rest); j++ {
+					if rest[j] == '(' {
+						depth++
+					} else if rest[j] == ')' {
+						if depth == 0 {
+							res[n] = strings.TrimSpace(rest[:j])
+							break
+						}
+						depth--
+					}
+				}
+			}
+		}
 		return res
 	}
 	for _, n := range names {
